@@ -5,7 +5,7 @@ correspondence stream; flag constants regenerated from flags.rs). Third-party CB
 coset) enters as the interface `CborIface`: a reader that consumes exactly one item and accepts no
 proper prefix of an item — the theorems hold for every such reader.
 -/
-import PasskeyVerif.Lemmas.AuthData
+import PasskeyVerif.Lemmas.AuthDataFlags
 namespace PasskeyVerif.C12
 open PasskeyVerif.AuthData PasskeyVerif.Generated
 
@@ -31,26 +31,6 @@ theorem C12_layout (a : AuthData) (hid : ∀ c, a.acd = some c → c.credId.leng
   | some c =>
     have := hid c hacd
     simp only [Acd.toBytes, this, if_true]
-
-theorem flag_calc_ff : ∀ u : UInt8, u &&& ~~~(Flags.UP ||| Flags.UV ||| Flags.BE ||| Flags.BS) = 0 →
-    ((Flags.DEFAULT ||| u) &&& Flags.AT ≠ Flags.AT) ∧ ((Flags.DEFAULT ||| u) &&& Flags.ED ≠ Flags.ED)
-      ∧ fromBits (Flags.DEFAULT ||| u) = some (Flags.DEFAULT ||| u) := by
-  apply forall_uint8; decide +kernel
-theorem flag_calc_ft : ∀ u : UInt8, u &&& ~~~(Flags.UP ||| Flags.UV ||| Flags.BE ||| Flags.BS) = 0 →
-    ((Flags.DEFAULT ||| u ||| Flags.ED) &&& Flags.AT ≠ Flags.AT) ∧ ((Flags.DEFAULT ||| u ||| Flags.ED) &&& Flags.ED = Flags.ED)
-      ∧ fromBits (Flags.DEFAULT ||| u ||| Flags.ED) = some (Flags.DEFAULT ||| u ||| Flags.ED) := by
-  apply forall_uint8; decide +kernel
-theorem flag_calc_tf : ∀ u : UInt8, u &&& ~~~(Flags.UP ||| Flags.UV ||| Flags.BE ||| Flags.BS) = 0 →
-    ((Flags.DEFAULT ||| u ||| Flags.AT ||| Flags.AT) &&& Flags.AT = Flags.AT)
-      ∧ ((Flags.DEFAULT ||| u ||| Flags.AT ||| Flags.AT) &&& Flags.ED ≠ Flags.ED)
-      ∧ fromBits (Flags.DEFAULT ||| u ||| Flags.AT ||| Flags.AT) = some (Flags.DEFAULT ||| u ||| Flags.AT ||| Flags.AT) := by
-  apply forall_uint8; decide +kernel
-theorem flag_calc_tt : ∀ u : UInt8, u &&& ~~~(Flags.UP ||| Flags.UV ||| Flags.BE ||| Flags.BS) = 0 →
-    ((Flags.DEFAULT ||| u ||| Flags.AT ||| Flags.ED ||| Flags.AT) &&& Flags.AT = Flags.AT)
-      ∧ ((Flags.DEFAULT ||| u ||| Flags.AT ||| Flags.ED ||| Flags.AT) &&& Flags.ED = Flags.ED)
-      ∧ fromBits (Flags.DEFAULT ||| u ||| Flags.AT ||| Flags.ED ||| Flags.AT)
-          = some (Flags.DEFAULT ||| u ||| Flags.AT ||| Flags.ED ||| Flags.AT) := by
-  apply forall_uint8; decide +kernel
 
 /-- **AT and ED are set exactly when the section is present**, for every value built with the provided
 constructor and setters: `new`, `set_flags` with any of UP/UV/BE/BS, optionally
@@ -161,9 +141,6 @@ theorem C12_roundtrip (I : CborIface) (a : AuthData) (h : WF I a) :
 theorem C12_rejects_short (skip : Bytes → Option Nat) (validKey : Bytes → Bool) (v : Bytes) (h : v.length < 37) :
     AuthData.fromSlice skip validKey v = .error .tooShort := by
   unfold AuthData.fromSlice; rw [if_pos h]
-
-theorem reserved_rejected : ∀ fb : UInt8, fb &&& 34 ≠ 0 → fromBits fb = none := by
-  apply forall_uint8; decide +kernel
 
 /-- **Rejected**: a flag byte with a reserved bit (bit 1 or bit 5). -/
 theorem C12_rejects_reserved_bits (skip : Bytes → Option Nat) (validKey : Bytes → Bool)
